@@ -336,7 +336,7 @@ func genCase(t *rapid.T) Case {
 		c.Mutation = &Mut{Enc: g.Pick(3, "enc"), Kind: []string{"truncate", "byte", "token", "dup", "swaptype", "insert", "badvalue", "badvalue", "extranode", "dupmember"}[g.Pick(10, "mkind")], Pos: g.Pick(100000, "pos"),
 			Arg: []string{"1.5", "1e3", "123456789012345678901234567890", "null", "true", "\"str\"", "[]", "{}", "[null]", "-0", "<x/>", "&amp;", " ", "9007199254740993", "0.1", "\"1\"",
 				"", "abc", "256", "-129", "1.234", "m1:zzz", "zzz", "99999999999999999999", " 5", "5 ", "+5", "0x10", "\u0661", "101", "65536", "m0:d1", "d1", "m1:e1", "e1", "two", "TRUE", "1.50", "00",
-				"m1:d1", "zz:d1", "m0:e1", "zz:e1", "m1:d2", "m0:d2", ":d1", "m0:", "m1:one", "m0:5"}[g.Pick(49, "marg")]}
+				"m1:d1", "zz:d1", "m0:e1", "zz:e1", "m1:d2", "m0:d2", ":d1", "m0:", "m1:one", "m0:5", "010", "-010", "0017", "+012"}[g.Pick(53, "marg")]}
 	}
 	if c.Mutation != nil && c.Mutation.Kind == "badvalue" && g.Chance(2, 3, "typedbad") {
 		// type-aware near misses: pick the leaf first (same pre-order as the check uses), then a value its type should reject
@@ -373,7 +373,9 @@ func genCase(t *rapid.T) Case {
 				case name == "identityref":
 					pool = []string{"m1:d1", "zz:d1", "m0:e1", "zz:e1", "m1:d2", "m0:d2", ":d1", "m0:", "d3", "m0:b0", "b0", "m1:b0"}
 				case strings.HasPrefix(name, "int") || strings.HasPrefix(name, "uint") || strings.HasSuffix(name, "percent"):
-					pool = []string{"128", "-129", "256", "-1", "65536", "1.0", "1e1", " 5", "5 ", "0x10", "\u0665", "101", "18446744073709551616", "-9223372036854775809", "2147483648"}
+					pool = []string{"128", "-129", "256", "-1", "65536", "1.0", "1e1", " 5", "5 ", "0x10", "\u0665", "101", "18446744073709551616", "-9223372036854775809", "2147483648",
+						// decimal integers with leading zeros (valid lexical forms): not octal
+						"010", "-010", "0017", "+012", "0100"}
 				case name == "decimal64":
 					pool = []string{"1.234", "1e2", "abc", "1.", "0.001", ".5", "92233720368547758.08", "--1"}
 				case name == "enumeration":
